@@ -290,6 +290,139 @@ def table():
     return ents, rows, mutators
 
 
+BINDING_FILES = FILES + ["cloudsync/runnable.py"]
+LOCK_ATTR = "lock"
+COPY_FUNCS = {"copy", "deepcopy", "replace"}
+STATE_NAMES = {"state", "_state", "__state", "_parent"}
+
+
+def _src(node):
+    try:
+        return ast.unparse(node)
+    except Exception:  # noqa
+        return "?"
+
+
+def lock_bindings():
+    """Every place of the analysed sources where the state lock is (re)bound, deleted, aliased or where the object carrying it is copied /
+    has its attribute dictionary written.  Row = (kind, function, expression).  Kinds:
+      bind      assignment / annotated / augmented assignment to  <x>.lock   (also a class-level  lock = ...)
+      del       del <x>.lock / delattr(<x>, "lock")
+      setattr   setattr(<x>, "lock", v) / object.__setattr__(<x>, "lock", v)
+      dict      any write through <x>.__dict__ / vars(<x>)  (assignment, subscript store, update/pop/clear/setdefault/__setitem__)
+      alias     <y> = <x>.lock, `with <x>.lock as y`, <x>.lock passed as an argument or returned (the lock escapes under another name)
+      copy      copy.copy / copy.deepcopy / dataclasses.replace of a state object, or a __copy__/__deepcopy__/__reduce__/__setstate__/
+                __getstate__ method on a class that carries a lock
+    The property's theorem needs `state.lock` to denote ONE lock object for the whole life of the state: on a correct tree the only
+    row is the constructor's binding."""
+    rows = []
+    for rel in BINDING_FILES:
+        path = os.path.join(REPO, rel)
+        if not os.path.exists(path):
+            continue
+        tree = ast.parse(open(path, encoding="utf8").read())
+
+        def is_lock_attr(e):
+            return isinstance(e, ast.Attribute) and e.attr == LOCK_ATTR
+
+        def is_dict_of(e):
+            if isinstance(e, ast.Attribute) and e.attr == "__dict__":
+                return True
+            return isinstance(e, ast.Call) and isinstance(e.func, ast.Name) and e.func.id == "vars"
+
+        def looks_like_state(e):
+            names = set(chain_attrs(e))
+            return bool(names & STATE_NAMES) or (names == {"self"})
+
+        def scan(node, qual, cls_has_lock):
+            for ch in ast.iter_child_nodes(node):
+                if isinstance(ch, (ast.FunctionDef, ast.AsyncFunctionDef)):
+                    q = (qual + "." if qual else "") + ch.name
+                    if ch.name in ("__copy__", "__deepcopy__", "__reduce__", "__reduce_ex__", "__setstate__", "__getstate__") and cls_has_lock:
+                        rows.append(("copy", q, "def " + ch.name))
+                    scan(ch, q, cls_has_lock)
+                    continue
+                if isinstance(ch, ast.ClassDef):
+                    has = any(is_lock_attr(t) for n in ast.walk(ch) if isinstance(n, (ast.Assign, ast.AnnAssign, ast.AugAssign))
+                              for t in (n.targets if isinstance(n, ast.Assign) else [n.target]))
+                    for st in ch.body:        # class-level  lock = ...
+                        if isinstance(st, (ast.Assign, ast.AnnAssign)):
+                            for t in (st.targets if isinstance(st, ast.Assign) else [st.target]):
+                                if isinstance(t, ast.Name) and t.id == LOCK_ATTR:
+                                    rows.append(("bind", ch.name, _src(t)))
+                    scan(ch, ch.name, has)
+                    continue
+                here = qual or "<module>"
+                if isinstance(ch, (ast.Assign, ast.AnnAssign, ast.AugAssign)):
+                    targets = ch.targets if isinstance(ch, ast.Assign) else [ch.target]
+                    flat = []
+                    for t in targets:
+                        flat += list(t.elts) if isinstance(t, (ast.Tuple, ast.List)) else [t]
+                    for t in flat:
+                        if is_lock_attr(t):
+                            rows.append(("bind", here, _src(t)))
+                        base = t
+                        while isinstance(base, ast.Subscript):
+                            base = base.value
+                        if is_dict_of(t) or (base is not t and is_dict_of(base)):
+                            rows.append(("dict", here, _src(t)))
+                    val = getattr(ch, "value", None)
+                    if val is not None and any(is_lock_attr(n) for n in ast.walk(val)) and not any(is_lock_attr(t) for t in flat):
+                        rows.append(("alias", here, _src(ch)[:80]))
+                elif isinstance(ch, ast.Delete):
+                    for t in ch.targets:
+                        if is_lock_attr(t):
+                            rows.append(("del", here, _src(t)))
+                        if is_dict_of(t) or (isinstance(t, ast.Subscript) and is_dict_of(t.value)):
+                            rows.append(("dict", here, _src(t)))
+                elif isinstance(ch, (ast.With, ast.AsyncWith)):
+                    for it in ch.items:
+                        if it.optional_vars is not None and any(is_lock_attr(n) for n in ast.walk(it.context_expr)):
+                            rows.append(("alias", here, "with %s as %s" % (_src(it.context_expr), _src(it.optional_vars))))
+                elif isinstance(ch, ast.Return):
+                    if ch.value is not None and any(is_lock_attr(n) for n in ast.walk(ch.value)):
+                        rows.append(("alias", here, _src(ch)[:80]))
+                if isinstance(ch, ast.Call) or any(isinstance(n, ast.Call) for n in ast.iter_child_nodes(ch)):
+                    pass
+                for n in ([ch] if isinstance(ch, ast.Call) else []) + [x for x in ast.walk(ch) if isinstance(x, ast.Call) and x is not ch
+                                                                        and not isinstance(ch, (ast.FunctionDef, ast.AsyncFunctionDef, ast.ClassDef))]:
+                    f = n.func
+                    fname = f.id if isinstance(f, ast.Name) else (f.attr if isinstance(f, ast.Attribute) else "")
+                    consts = [a.value for a in n.args if isinstance(a, ast.Constant)]
+                    if fname in ("setattr", "__setattr__") and LOCK_ATTR in consts:
+                        rows.append(("setattr", here, _src(n)[:80]))
+                    elif fname in ("delattr", "__delattr__") and LOCK_ATTR in consts:
+                        rows.append(("del", here, _src(n)[:80]))
+                    elif isinstance(f, ast.Attribute) and is_dict_of(f.value) and f.attr in ("update", "pop", "clear", "setdefault", "__setitem__",
+                                                                                            "__delitem__", "popitem"):
+                        rows.append(("dict", here, _src(n)[:80]))
+                    elif fname in COPY_FUNCS and n.args and looks_like_state(n.args[0]) and \
+                            (isinstance(f, ast.Name) or "copy" in chain_attrs(f) or "dataclasses" in chain_attrs(f)):
+                        rows.append(("copy", here, _src(n)[:80]))
+                    else:
+                        for a in list(n.args) + [k.value for k in n.keywords]:
+                            if is_lock_attr(a):
+                                rows.append(("alias", here, _src(n)[:80]))
+                if not isinstance(ch, (ast.FunctionDef, ast.AsyncFunctionDef, ast.ClassDef)):
+                    scan_stmt_children(ch, here, cls_has_lock)
+
+        def scan_stmt_children(node, here, cls_has_lock):
+            # compound statements: descend into their bodies (calls inside expressions were already walked above)
+            for field in ("body", "orelse", "finalbody", "handlers"):
+                for sub in getattr(node, field, []) or []:
+                    if isinstance(sub, ast.ExceptHandler):
+                        scan_block(sub.body, here, cls_has_lock)
+                    elif isinstance(sub, ast.AST):
+                        scan_block([sub], here, cls_has_lock)
+
+        def scan_block(stmts, here, cls_has_lock):
+            holder = ast.Module(body=list(stmts), type_ignores=[])
+            scan(holder, here if here != "<module>" else "", cls_has_lock)
+        scan(tree, "", False)
+    # de-duplicate, keep order of appearance stable by sorting
+    return sorted(set(rows))
+
+
 def lean_text(ents, rows):
     def s(x):
         return '"%s"' % x
@@ -306,6 +439,10 @@ def lean_text(ents, rows):
     for e in ents:
         body.append("  (%s,\n    [%s],\n    [%s])" % (s(e), ", ".join(s(q) for q in per[e][0]), ", ".join(s(q) for q in per[e][1])))
     lines.append(",\n".join(body))
+    lines.append("]")
+    lines.append("/-- every (re)binding / deletion / alias / copy of the state lock in the analysed sources: (kind, function, expression) -/")
+    lines.append("def lockBindings : List (String × String × String) := [")
+    lines.append(",\n".join('  ("%s", "%s", "%s")' % (k, q, e.replace("\\", "\\\\").replace('"', "'")) for k, q, e in lock_bindings()))
     lines.append("]")
     lines.append("end CS.Lock.Gen")
     return "\n".join(lines) + "\n"
@@ -326,6 +463,9 @@ if __name__ == "__main__":
     if "--json" in sys.argv:
         ents, rows, mutators = table()
         json.dump({"entries": ents, "rows": rows, "mutators": mutators}, sys.stdout, indent=1)
+    elif "--bindings" in sys.argv:
+        for r in lock_bindings():
+            print(r)
     elif "--print" in sys.argv:
         ents, rows, mutators = table()
         for e, q, ok in rows:
